@@ -9,10 +9,11 @@ res = json.load(open(os.path.join(src, 'result.json')))
 assert res.get('valid'), 'not a confirmed change: %s' % {k: res.get(k) for k in ('demo_on_unchanged', 'tests_pass', 'demo_on_changed')}
 dst = os.path.join(ROOT, 'seeded', name)
 os.makedirs(dst, exist_ok=True)
-shutil.copy(os.path.join(src, 'patch.diff'), dst)
-shutil.copy(os.path.join(src, 'demo.py'), dst)
-if os.path.exists(os.path.join(src, 'NOTES.md')):
-    shutil.copy(os.path.join(src, 'NOTES.md'), dst)
+if os.path.realpath(src) != os.path.realpath(dst):
+    shutil.copy(os.path.join(src, 'patch.diff'), dst)
+    shutil.copy(os.path.join(src, 'demo.py'), dst)
+    if os.path.exists(os.path.join(src, 'NOTES.md')):
+        shutil.copy(os.path.join(src, 'NOTES.md'), dst)
 meta_path = os.path.join(dst, 'meta.json')
 meta = json.load(open(meta_path)) if os.path.exists(meta_path) else {}
 meta.update({
